@@ -33,6 +33,7 @@ func checkC06(c *Ctx) {
 	c.trieTraversals()
 	c.wildcardCoversParent()
 	c.endOfLevelsSignal()
+	c.lookupsConsultTheTree()
 	lockBalance(c, func(cl string) bool { return strings.HasPrefix(cl, "topics.") }, "topic-store")
 	c.topicStoreLocking()
 	// the retained store keeps a re-encoded copy (a buffer of Len() bytes, filled by Encode, decoded again): the copy
